@@ -20,7 +20,11 @@ RowMatch(e, d) == Len(e) = Len(d) /\ \A k \in DOMAIN e : e[k] = "*" \/ e[k] = d[
 RowsMatch(es, ds) == Len(es) = Len(ds) /\ \A j \in DOMAIN es : RowMatch(es[j], ds[j])
 PrefixMatch(ds, es) == Len(ds) <= Len(es) /\ \A j \in DOMAIN ds : RowMatch(es[j], ds[j])
 
-Recorded(ev) == ~Cfg.onlybest \/ ev.isbest
+\* "only strict improvements when so configured": for a single objective decided HERE from the observed history of
+\* registered aggregates (first, or strictly better than everything registered before), not from the flag the tracker
+\* hands to its recorders; for several objectives the tracker's notion of a new best (C12) is taken as given
+StrictImprovement(ev) == \A k \in DOMAIN ev.prev : ev.agg > ev.prev[k]
+Recorded(ev) == ~Cfg.onlybest \/ (IF Cfg.nobj = 1 THEN StrictImprovement(ev) ELSE ev.isbest)
 FullAfter(full, ev) == IF Recorded(ev) THEN Append(full, ev.expect) ELSE full
 
 \* kind of the first mismatching cell of the first mismatching row
